@@ -222,7 +222,8 @@ def rule_create(ctx):
                                                                                  for cb in ('callbacks::csvdump::CsvDump', 'callbacks::unspentcsvdump::UnspentCsvDump', 'callbacks::balances::Balances'))]
     ctx.check('create', 'no-other-create', not other, other[0] if other else None, 'no file is created outside the three constructors')
     rn = [cs for cs in prog.all_calls() if cs.name == 'std::fs::rename']
-    ctx.check('create', 'final-names-by-rename', len(rn) == 3, None, '%d rename sites' % len(rn))
+    owners = sorted(set((cs.body.impl_self or cs.body.path).split('::')[-1] for cs in rn))
+    ctx.check('create', 'final-names-by-rename', owners == ['Balances', 'CsvDump', 'UnspentCsvDump'], None, '%d rename site(s) in %s' % (len(rn), owners))
 
 
 def rule_stale(ctx):
